@@ -72,6 +72,10 @@ struct Cfg {
 
 // (Default: the same actor is also spawned through ractor's blanket
 // `impl<T: Actor + Default> ThreadLocalActor for T`)
+/// a message type no harness actor handles (typed lookups with it must find nothing)
+pub struct OtherMsg;
+impl ractor::Message for OtherMsg {}
+
 #[derive(Default)]
 struct H;
 impl Actor for H {
@@ -162,11 +166,35 @@ struct Slot {
     ps: bool,
 }
 
+/// Subscriber of the pid registry's lifecycle events (`pid_registry::monitor`): logs (is_spawn, id).
+struct PidWatch;
+impl Actor for PidWatch {
+    type Msg = ();
+    type State = Arc<Mutex<Vec<(bool, ActorId)>>>;
+    type Arguments = Arc<Mutex<Vec<(bool, ActorId)>>>;
+    async fn pre_start(&self, _: ActorRef<()>, a: Self::Arguments) -> Result<Self::State, ActorProcessingErr> {
+        Ok(a)
+    }
+    async fn handle_supervisor_evt(&self, _: ActorRef<()>, evt: SupervisionEvent, st: &mut Self::State) -> Result<(), ActorProcessingErr> {
+        if let SupervisionEvent::PidLifecycleEvent(e) = evt {
+            match e {
+                registry::PidLifecycleEvent::Spawn(c) => st.lock().unwrap().push((true, c.get_id())),
+                registry::PidLifecycleEvent::Terminate(c) => st.lock().unwrap().push((false, c.get_id())),
+            }
+        }
+        Ok(())
+    }
+}
+
 async fn run_hist(rest: &str) -> String {
     let sid = SCN.fetch_add(1, Ordering::SeqCst);
     let pid = std::process::id();
     let nm = |k: u64| format!("c10-{pid}-{sid}-{k}");
     let (sup, _sh) = Actor::spawn(None, Quiet, ()).await.expect("sup");
+    let pidlog: Arc<Mutex<Vec<(bool, ActorId)>>> = Arc::new(Mutex::new(Vec::new()));
+    let wrong_typed: Arc<Mutex<Vec<String>>> = Arc::new(Mutex::new(Vec::new()));
+    let (watch, _wh) = Actor::spawn(None, PidWatch, pidlog.clone()).await.expect("watch");
+    ractor::registry::pid_registry::monitor(watch.get_cell());
     let hist: Arc<Mutex<Vec<String>>> = Arc::new(Mutex::new(Vec::new()));
     let mut slots: HashMap<u64, Slot> = HashMap::new();
     let mut order: Vec<u64> = Vec::new();
@@ -336,7 +364,20 @@ async fn run_hist(rest: &str) -> String {
             "wh" => {
                 let k: u64 = w[1].parse().unwrap();
                 let r = registry::where_is(nm(k));
+                // the other views of the same table must agree with where_is (single-threaded here):
+                // the listing `registered()`, the typed lookup `ActorRef::<M>::where_is` with the actor's
+                // message type (same cell) and with another message type (never a wrongly typed reference)
+                let listed = registry::registered().iter().any(|x| *x == nm(k));
+                let typed = ActorRef::<()>::where_is(nm(k)).map(|x| x.get_id());
+                let wrong = ActorRef::<OtherMsg>::where_is(nm(k)).is_some();
+                let agree = listed == r.is_some() && typed == r.as_ref().map(|c| c.get_id());
+                if wrong {
+                    // a reference with the wrong message type: outside C10's statement, reported as a
+                    // correspondence difference (third output component)
+                    wrong_typed.lock().unwrap().push(format!("(({k}, 997), (0, 0))"));
+                }
                 let t = match r {
+                    _ if !agree => "(Some (998, SLive))".to_string(),
                     None => "None".to_string(),
                     Some(c) => match find(&slots, c.get_id()) {
                         Some(a) => format!("(Some ({a}, {}))", cls(c.get_status())),
@@ -348,7 +389,13 @@ async fn run_hist(rest: &str) -> String {
             "whp" => {
                 let a: u64 = w[1].parse().unwrap();
                 let Some(c) = slots[&a].cell.lock().unwrap().clone() else { continue };
-                let t = match registry::where_is_pid(c.get_id()) {
+                let r = registry::where_is_pid(c.get_id());
+                // `get_all_pids()` lists the same table
+                let listed = registry::get_all_pids().iter().any(|x| x.get_id() == c.get_id());
+                let t = match r {
+                    // a disagreement is made visible as the opposite answer
+                    None if listed => "(Some SLive)".to_string(),
+                    Some(_) if !listed => "None".to_string(),
                     None => "None".to_string(),
                     Some(c2) => format!("(Some {})", cls(c2.get_status())),
                 };
@@ -360,6 +407,28 @@ async fn run_hist(rest: &str) -> String {
     }
     settle().await;
     let h = hist.lock().unwrap().clone();
+    // pid lifecycle subscription vs. the pid table (outside C10's statement; reported as a correspondence
+    // difference only): one Spawn per actor that entered the pid table, one Terminate once it left, nothing
+    // for remote ids and for spawns rejected at the name step
+    let mut lifecycle: Vec<String> = wrong_typed.lock().unwrap().clone();
+    {
+        let pl = pidlog.lock().unwrap();
+        for a in &order {
+            if slots[a].tl {
+                continue; // lifecycle on another OS thread: not settled by the paused clock
+            }
+            let Some(c) = slots[a].cell.lock().unwrap().clone() else { continue };
+            let sp = pl.iter().filter(|(s, id)| *s && *id == c.get_id()).count();
+            let te = pl.iter().filter(|(s, id)| !*s && *id == c.get_id()).count();
+            let entered = h.iter().any(|e| *e == format!("EPid {a}"));
+            let present = registry::where_is_pid(c.get_id()).is_some();
+            let want_sp = usize::from(entered);
+            let want_te = usize::from(entered && !present);
+            if sp != want_sp || te != want_te {
+                lifecycle.push(format!("(({a}, {sp}), ({te}, {want_te}))"));
+            }
+        }
+    }
     let results: Vec<String> = order
         .iter()
         .map(|a| slots[a].result.lock().unwrap().unwrap_or("Pending").to_string())
@@ -382,12 +451,14 @@ async fn run_hist(rest: &str) -> String {
         }
     }
     drop(spawner);
+    // the subscriber's own exit unsubscribes it (set_status: pid_registry::demonitor)
+    watch.stop(None);
     sup.stop(None);
     for t in tasks {
         t.abort();
     }
     settle().await;
-    format!("({}, {})", coq_list(&h), coq_list(&results))
+    format!("({}, {}, {})", coq_list(&h), coq_list(&results), coq_list(&lifecycle))
 }
 
 // ------------------------------------------------------------------------------------------
